@@ -148,6 +148,10 @@ def run(ctx):
     ctx.clause = 'D2c'
     r, Ir = ctx.run(rec, no_inline=RECORD_NO_INLINE)
     record_block_requests(ctx, rec, Ir)
+    # SCANLEN / PKTSTOP describe THIS recording: the cards are rendered per block from the current dictionary
+    from .common import header_rendered_afresh
+    ctx.clause = 'D4'
+    header_rendered_afresh(ctx, ' (SCANLEN and PKTSTOP of a later recording on the same backend)')
     # "...and advances its clock accordingly": every source class advances its own clock by exactly the samples it hands out --
     # for an array that is num_samples, not the (max_delay longer) background request of the first call of an observation
     ctx.clause = 'D5'
